@@ -139,13 +139,7 @@ class Engine(CoreMixin, ExprMixin, CallMixin, LibMixin, StmtMixin, ReMixin):
             st.env[n] = v
         # distinct reference parameters of different declared classes are different objects
         refs = [(n, v) for n, v in st.env.items() if v.ty.kind == "ref"]
-        for g, t in C.GHOSTS.items():
-            ty = parse_type(t)
-            ts = [self.ctx.const("g0_%s_%d" % (g, k), s) for k, s in enumerate(flatten(ty))]
-            v = SV(ty, ts)
-            for tt in self.wf(v):
-                st.assume(tt)
-            st.env[g] = v
+        # ghost variables are created lazily, on first mention (see ghost_entry)
         for name, expr in list(con.requires.items()) + list(con.assume.items()):
             st.assume(self.clause_term(expr, st.env, st))
         for name in con.assume:
@@ -203,6 +197,7 @@ class Engine(CoreMixin, ExprMixin, CallMixin, LibMixin, StmtMixin, ReMixin):
             val = self.coerce(val, parse_type(con.returns), o.st, " (return value)")
         self.apply_ghost_update(con.ghost_update, o.st, val)
         for name, expr in con.ensures.items():
+            self.cur_clause = name
             g, sk = self.goal_term(expr, self.post_env(o.st), o.st, old=self.entry_state, result=val)
             self.oblige(o.st, g, "%s#post.%s" % (self.short, name), "ensures", self.curline, expr, sk)
         self.check_frame(o.st, "post")
